@@ -42,6 +42,7 @@ import Relic.Driver.Readers
 import Relic.Driver.Cosign
 import Relic.Driver.TsaX
 import Relic.Driver.Xar
+import Relic.Driver.Rpm
 import Relic.Driver.CsVerify
 import Relic.Driver.Scd
 import Relic.Driver.Daemon
@@ -98,6 +99,7 @@ def dispatch (line : String) : String :=
   | "CAT" :: rest => Relic.Driver.Cosign.handleCat rest
   | "TSX" :: rest => Relic.Driver.TsaX.handle rest
   | "XAR" :: rest => Relic.Driver.Xar.handle rest
+  | "RPM" :: rest => Relic.Driver.Rpm.handle rest
   | "SCD" :: rest => Relic.Driver.Scd.handle rest
   | "DAEMON" :: rest => Relic.Driver.Daemon.handle rest
   | _ => "bad-op"
